@@ -7,8 +7,11 @@ import (
 	"os"
 	"path/filepath"
 	"runtime"
+	"runtime/debug"
+	"runtime/metrics"
 	"sort"
 	"strings"
+	"sync"
 	"sync/atomic"
 	"testing"
 	"testing/synctest"
@@ -191,7 +194,23 @@ func matchKnown(kf []knownFinding, v Violation) *knownFinding {
 	return nil
 }
 
+// The simulation decides quiescence from the scheduler's run queue (pollQuiescent). The concurrent garbage collector would
+// add goroutine states that are neither runnable nor blocked on anything of the program's: a goroutine parked for GC assist
+// credit is invisible to the run queue yet resumes on its own. So the collector is off while a case runs in a bubble, and
+// runs (stop-the-world, outside any bubble) between cases whenever the heap has grown.
+var gcOnce sync.Once
+var heapSample = []metrics.Sample{{Name: "/memory/classes/heap/objects:bytes"}}
+
+func gcBetweenCases() {
+	gcOnce.Do(func() { debug.SetGCPercent(-1) })
+	metrics.Read(heapSample)
+	if heapSample[0].Value.Uint64() > 192<<20 {
+		runtime.GC()
+	}
+}
+
 func runInBubble(t *testing.T, c *Case) (tr *Trace) {
+	gcBetweenCases()
 	defer func() {
 		if r := recover(); r != nil {
 			if tr == nil {
